@@ -543,6 +543,16 @@ def slide_ops():
         ("bg.gradient", lambda sl: sl.background.fill.gradient()),
         ("bg.patterned", lambda sl: sl.background.fill.patterned()),
         ("bg.background", lambda sl: sl.background.fill.background()),
+        # backgrounds that start as a theme reference (p:bgRef): the default template's master, most corpus masters
+        ("master.bg.solid", lambda sl: sl.slide_layout.slide_master.background.fill.solid()),
+        ("master.bg.gradient", lambda sl: sl.slide_layout.slide_master.background.fill.gradient()),
+        ("master.bg.background", lambda sl: sl.slide_layout.slide_master.background.fill.background()),
+        ("layout.bg.solid", lambda sl: (sl.slide_layout.background.fill.solid(), setattr(sl.slide_layout.background.fill.fore_color, "rgb", _rgb()))),
+        ("layout.bg.patterned", lambda sl: sl.slide_layout.background.fill.patterned()),
+        ("master.name", lambda sl: setattr(sl.slide_layout.slide_master, "name", "M")),
+        ("layout.name", lambda sl: setattr(sl.slide_layout, "name", "L & <1>")),
+        ("layout.ph.geometry", lambda sl: [(setattr(p, "left", 0), setattr(p, "top", 0)) for p in sl.slide_layout.placeholders][:0]),
+        ("master.ph.text", lambda sl: [setattr(p.text_frame, "text", "m") for p in sl.slide_layout.slide_master.placeholders if p.has_text_frame][:0]),
         ("slide.name", lambda sl: setattr(sl, "name", "S & <1>")),
         ("slide.name=None", lambda sl: (setattr(sl, "name", "x"), setattr(sl, "name", None))),
         ("notes.text", lambda sl: setattr(sl.notes_slide.notes_text_frame, "text", "n\nm")),
